@@ -352,6 +352,26 @@ func c16Sim(r *simcore.Run) {
 	}
 	jf := fin.(*jwtFinalizer)
 	signer := jf.signer
+	// optionally a second jwt finalizer with its own (static) key store registered at the same key holder registry:
+	// key ids are unique per key store only, so both stores may use the same id for different keys
+	var jf2 *jwtFinalizer
+	var set2 []string
+	if s.Draw(3, "second-signer") == 2 {
+		v2 := genVersion()
+		path2 := filepath.Join(dir, "keystore2.pem")
+		os.WriteFile(path2, v2.pem, 0o600)
+		fin2, err := CreatePrototype(&c16CreationCtx{w: sw, khr: reg, co: certificate.NewObserver()}, "jwtfin2", FinalizerJwt,
+			map[string]any{"signer": map[string]any{"name": "sim-issuer", "key_store": map[string]any{"path": path2}}, "ttl": ttl.String()})
+		if err != nil {
+			r.Fail("infra", "create-finalizer-2", "%v", err)
+			return
+		}
+		jf2 = fin2.(*jwtFinalizer)
+		for _, k := range jf2.signer.pubKeys {
+			set2 = append(set2, thumb(k.Key)+"/"+k.KeyID)
+		}
+		r.Logf("second signer (static): %v", describe(v2))
+	}
 	mgmt := management.VerifNewHandler(reg)
 	var cch cache.Cache = &noop.Cache{}
 	if s.Draw(2, "cache") == 1 {
@@ -465,7 +485,12 @@ func c16Sim(r *simcore.Run) {
 				hc := &c16Ctx{ctx: cache.WithContext(context.Background(), cch), headers: http.Header{}, outputs: map[string]any{}}
 				op := c16Op{kind: "sign", task: t, sub: subj, ttl: ttl, t0: time.Now().Unix()}
 				op.call = sch.Stamp()
-				op.err = jf.Execute(hc, &subject.Subject{ID: subj, Attributes: map[string]any{}})
+				f := jf
+				if t == 1 && jf2 != nil {
+					f = jf2
+					op.kind = "sign2"
+				}
+				op.err = f.Execute(hc, &subject.Subject{ID: subj, Attributes: map[string]any{}})
 				op.ret = sch.Stamp()
 				op.t1 = time.Now().Unix()
 				op.token = strings.TrimPrefix(hc.headers.Get("Authorization"), "Bearer ")
@@ -566,6 +591,22 @@ func c16Sim(r *simcore.Run) {
 	for _, list := range ops {
 		for _, op := range list {
 			switch op.kind {
+			case "sign2":
+				if op.err != nil {
+					r.Fail("sign-failed", "jwt-finalizer", "Execute failed: %v", op.err)
+					return
+				}
+				tok, err := jwt.ParseSigned(op.token, []jose.SignatureAlgorithm{jose.ES256, jose.ES384, jose.ES512, jose.PS256, jose.PS384, jose.PS512})
+				if err != nil {
+					r.Fail("unparsable-token", "jwt-finalizer", "%v", err)
+					return
+				}
+				var c map[string]any
+				k2 := jf2.signer.jwk
+				if err := tok.Claims(k2.Key, &c); err != nil || tok.Headers[0].KeyID != k2.KeyID {
+					r.Fail("token-not-verifiable-with-published-keys", "jwt-finalizer/second-signer", "token of the second signer (kid=%s) does not verify with its key (kid=%s): %v", tok.Headers[0].KeyID, k2.KeyID, err)
+					return
+				}
 			case "sign":
 				if op.err != nil {
 					r.Fail("sign-failed", "jwt-finalizer", "Execute failed: %v", op.err)
@@ -657,6 +698,7 @@ func c16Sim(r *simcore.Run) {
 					for _, t := range gs[i].set {
 						want = append(want, t+"/"+gs[i].kids[t])
 					}
+					want = append(want, set2...)
 					if strings.Join(want, ",") == strings.Join(got, ",") {
 						match = true
 					}
